@@ -188,3 +188,44 @@ HOOKS = {'guard': 'none',
 NOTES = ("Contract-based deductive verification. Each check extracts the real functions a property depends on from /repo's working tree (vx, rewrites listed in the "
  'evidence), splices the contracts of /verif/specs, and lets Verus (unbounded) or Kani/CBMC (complete where loop-free, otherwise labelled bounded and not '
  'counted) discharge every obligation. Exit 2 = undecided (lost anchor / unsupported construct / solver limit), never an alarm.')
+
+
+# ---- amendments (rounds 4-5): applied to the assembled strings above
+def _amend(prop, field, old, new):
+    assert old in CLAIMS[prop][field], (prop, field, old[:60])
+    CLAIMS[prop][field] = CLAIMS[prop][field].replace(old, new)
+
+_amend('C03', 'text', "a chunk shed from the ingest queue is forgotten by the duplicate cache.",
+       "a chunk shed from the ingest queue is forgotten by the duplicate cache; the buffered copies of an applied version are cleared in passes that stop only "
+       "when both tables are drained; a completely received version is handed to the applier with a send that waits for room.")
+_amend('C04', 'text', "Not decided: the flat_map/collect chain intersecting our missing seqs with the peer's held seqs.",
+       "For a version both sides hold partially the requested seq ranges are exactly (our missing ranges) ∩ (what the peer holds), pair by pair (the "
+       "flat_map/map/collect chain is desugared mechanically into the two loops it denotes). Structural: no loop of compute_available_needs iterates through a "
+       "filtering or truncating adapter. The cutting of a Full need into sub-requests (chunk_range) is checked by Kani with stated bounds, not proved.")
+_amend('C04', 'technique', "extracted each run", "extracted each run; structural obligation on the loop headers; Kani (bounded) on chunk_range")
+_amend('C05', 'text', "Safety guards only:",
+       "send_change_chunks sends consecutive ranges from the requested start to the requested end carrying exactly the selected rows (against the chunker's "
+       "contract, itself proved here as well); structural: every chunker is built with the two bounds its rows were selected with (`seq BETWEEN` over both), the "
+       "stored ranges of a buffered version are read row by row from their own columns, a failed row ends the answer for its range, all queries of one need "
+       "run on one read transaction and are scoped to one actor. Otherwise safety guards only:")
+_amend('C07', 'text', "Rollback on failure and",
+       "A changeset attributed to the node itself is dropped by the ingest loop unconditionally, and after a restart the node's own head is read from "
+       "cr-sqlite's per-site version counter (so its own versions stay gap-free and the next one is previous + 1). Rollback on failure and")
+_amend('C07', 'note', "tiling of the chunker (proved under C08)", "tiling of the chunker (proved in unit c07_chunker / C08)")
+_amend('C08', 'text', "chunk_range's union = request is checked by Kani with stated bounds.",
+       "The stored ranges of a buffered version are read row by row (no aggregate) from their own columns, and a failed row ends the answer. chunk_range's "
+       "union = request is checked by Kani with stated bounds.")
+_amend('C10', 'text', "Liveness (applied after finitely many offers) and JoinSet/back-pressure timing are not decided.",
+       "Of the liveness clause only the hand-over is decided: a version whose last chunk has just been buffered (or is found fully buffered at start-up) is given "
+       "to the applier with a send that waits for room, never try_send; what a restart reloads as held seqs of a buffered version is what was recorded. "
+       "Scheduling, JoinSet/back-pressure timing and termination of the applier are not decided.")
+_amend('C12', 'text', "Not decided: the snapshot read itself (all_rows in one read transaction) and pruning of the change log below the resume point.",
+       "Structural: the snapshot is labelled with MAX(id) of the change log read on the connection its rows came from, inside one transaction; the matcher "
+       "publishes the id of every event right after broadcasting it and before it commits (what catch_up_sub compares against); the client's cursor is "
+       "assigned only by handle_change / handle_eoq. Not decided: pruning of the change log below the resume point, the matcher's own numbering (+1 per event).")
+_amend('C14', 'text', "Channel delivery inside match_changes is not decided.",
+       "A stale key only skips itself (the rest of its batch is still examined); the update-feed forwarder ends the stream when its broadcast receiver lagged. "
+       "Channel delivery inside match_changes is not decided.")
+_amend('C15', 'text', "Not decided: what SQLite/cr-sqlite do with the DDL",
+       "Structural: the loop over tables present in both schemas is left early only by an error, so a table that passed the column rules also reaches the index "
+       "comparison. Not decided: what SQLite/cr-sqlite do with the DDL")
